@@ -214,13 +214,13 @@ CHECKS = {
                        "returns; admitted => one Write per selected destination, payload ends in newline, nothing elsewhere; not admitted "
                        "=> nothing anywhere; blank Print/Println => exactly one newline byte. A second run makes all 64 flag bits symbolic.",
         "bounds": {"quick": "message <= 1 byte (all values); 1 argument of any kind (groups of <= 1 member of any kind) x 11 verbs; 2 arguments of any kind without nesting x 3 verbs; logger levels Trace/Warn/Off; flags run (all 64 flag bits symbolic): Info and Error, 3 formats, no arguments",
-                   "thorough": "message <= 2 bytes; 1 argument with groups of <= 2 members; 2 arguments with groups of <= 1 member"},
+                   "thorough": "message <= 2 bytes (all values); otherwise as quick, plus one argument in the all-flags run"},
         "outside": "values whose own methods panic, cyclic values (excluded by the property); longer argument lists",
         "assumptions": ["time.Now is a fixed instant; runtime.Callers answered from the engine's call stack"],
         "runs": [
-            {"harness": "VH_C02", "quick": {"msg": 1, "args": 1, "depth": 1, "gmembers": 1}, "thorough": {"msg": 2, "args": 1, "depth": 1, "gmembers": 2},
+            {"harness": "VH_C02", "quick": {"msg": 1, "args": 1, "depth": 1, "gmembers": 1}, "thorough": {"msg": 2, "args": 1, "depth": 1, "gmembers": 1},
              "covers": ["C02:returned", "C02:admitted", "C02:blank"]},
-            {"harness": "VH_C02", "quick": {"msg": 0, "args": 2, "depth": 0}, "thorough": {"msg": 0, "args": 2, "depth": 1, "gmembers": 1},
+            {"harness": "VH_C02", "quick": {"msg": 0, "args": 2, "depth": 0}, "thorough": {"msg": 0, "args": 2, "depth": 0},
              "covers": ["C02:returned", "C02:admitted"]},
             {"harness": "VH_C02", "quick": {"msg": 0, "args": 0, "depth": 0, "symflags": 1}, "thorough": {"msg": 0, "args": 1, "depth": 0, "symflags": 1},
              "covers": ["C02:returned", "C02:admitted"]},
